@@ -331,9 +331,12 @@ func (f *Filter) strValue() string {
 		} else {
 			value = regexp.QuoteMeta(value)
 		}
-		// a blank at the end would get lost when the line is parsed again, the parser removes the ".*" again
+		// a blank at the end or at the start would get lost when the line is parsed again, the parser removes the ".*" again
 		if strings.TrimRightFunc(value, unicode.IsSpace) != value {
 			value += ".*"
+		}
+		if colType != CustomVarCol && strings.TrimLeftFunc(value, unicode.IsSpace) != value {
+			value = ".*" + value
 		}
 	default:
 	}
